@@ -86,4 +86,6 @@ def panel (f : Feat) : Panel :=
     prog := prog f,
     ctrl := .uc (Uc.por WIDTH HEIGHT 1 9 true) }
 
+attribute [driver_simp] W setLut init sendBufferHelper updateFrame windowHeader updateAchromatic updateChromatic prog
+
 end EpdVerif.Drivers.Epd2in7b
